@@ -4,6 +4,7 @@
    The queue-arc theorems hold for ANY behaviour of the end nodes. *)
 From Coq Require Import QArith Qminmax List Bool Arith.
 From WSI Require Import Vqip Pow Tank Arc QTank Run TankLaws ArcLaws QTankLaws QueueLaws Refuted.
+From WSI Require DecayQTank.
 Import ListNotations.
 Open Scope Q_scope.
 
@@ -71,3 +72,18 @@ Example C02_tiny_push_handed_back :
   q_send_push _ nbport q s w_tiny false 0 = (q, s, w_tiny).
 Proof. exact tiny_push_is_handed_back. Qed.
 Print Assumptions C02_tiny_push_handed_back.
+
+(* ---- every queue tank, decaying or not (QueueTank, DecayQueueTank: Sewer and QueueGroundwater stores) ----
+   in every state reachable by pushes (any travel time, forced or not, wet offers), pulls, exact pulls,
+   checks and close-outs: declared contents = arrived + in transit + decay applied and not yet reported *)
+Theorem C02_every_queue_tank_declares_what_it_holds : forall ops t, Forall WSI.DecayQTank.qop_wet ops ->
+  WSI.DecayQTank.qledger t /\ WSI.DecayQTank.plain_quiet t ->
+  forall k, let t' := fold_left (fun s o => fst (QTank.qtank_do s o)) (firstn k ops) t in
+            WSI.DecayQTank.qledger t' /\ WSI.DecayQTank.plain_quiet t'.
+Proof. exact WSI.DecayQTank.qtank_run_ledger. Qed.
+Print Assumptions C02_every_queue_tank_declares_what_it_holds.
+
+Theorem C02_queue_tank_initial_state_meets_it : forall cap0 init n dec,
+  WSI.DecayQTank.qledger (QTank.qt_init cap0 init n dec) /\ WSI.DecayQTank.plain_quiet (QTank.qt_init cap0 init n dec).
+Proof. exact WSI.DecayQTank.qt_init_ledger. Qed.
+Print Assumptions C02_queue_tank_initial_state_meets_it.
